@@ -107,15 +107,17 @@ func TestC06(t *testing.T) {
 	}
 	ev.Rapid(t, rec, "random", rec.Scale(3000, 300000), func(t *rapid.T) aggh.XCase {
 		to := timeouts[rapid.IntRange(0, 1).Draw(t, "to")]
-		c := aggh.XCase{ActiveSec: to[0], InactiveSec: to[1], Flows: flows()}
+		// beyond the exhaustive alphabet: a fourth flow that is only ready once both of its nodes reported
+		// (a held flow that is waiting must be scheduled like any other)
+		c := aggh.XCase{ActiveSec: to[0], InactiveSec: to[1], Flows: append(flows(), aggh.FlowDef{Src: "10.0.0.9", Dst: "10.0.1.9", SPort: 1009, DPort: 80, Proto: 6, Kind: aggh.KindInterNode})}
 		for n := rapid.IntRange(2, 80).Draw(t, "n"); n > 0; n-- {
 			switch k := rapid.IntRange(0, 9).Draw(t, "op"); {
 			case k <= 3:
-				c.Ops = append(c.Ops, aggh.XOp{Kind: "rec", Flow: rapid.IntRange(0, 2).Draw(t, "flow")})
+				c.Ops = append(c.Ops, aggh.XOp{Kind: "rec", Flow: rapid.IntRange(0, 3).Draw(t, "flow"), Side: rapid.SampledFrom([]string{"S", "S", "D"}).Draw(t, "side")})
 			case k <= 6:
 				c.Ops = append(c.Ops, aggh.XOp{Kind: "advance", Hours: rapid.SampledFrom([]int{1, 1, 2, 3, 4, 6, 11, 30}).Draw(t, "h")})
 			default:
-				c.Ops = append(c.Ops, aggh.XOp{Kind: "scan", Fail: rapid.SampledFrom([]int{0, 0, 0, 1, 2, 4, 3, 7}).Draw(t, "fail")})
+				c.Ops = append(c.Ops, aggh.XOp{Kind: "scan", Fail: rapid.SampledFrom([]int{0, 0, 0, 1, 2, 4, 3, 7, 8}).Draw(t, "fail")})
 			}
 		}
 		return c
